@@ -2,12 +2,12 @@
 Tie: M (Model/Isd.v `isd`) against ISD.from_model on generated documents x boundary/epsilon/midpoint times
 (whole snapshot: structure, ids, text, styles).  S (Spec/IsdSpec.v `leaves_spec`) is evaluated in Coq on the
 implementation's snapshots."""
-import logging, sys
+import copy, logging, sys
 import common as C
 import isdlit as L
 import docgen, isdcore, gen_tables
 
-HEADER = ("From TT Require Import Model.Doc Gen.StyleTables Model.Isd Model.IsdCases Spec.IsdSpec Model.IsdSpecCases.\n"
+HEADER = ("From TT Require Import Model.Doc Gen.StyleTables Model.Isd Model.IsdCases Spec.IsdSpec Model.IsdSpecCases Spec.DocWf.\n"
           "Open Scope Z_scope.\n")
 
 
@@ -28,6 +28,7 @@ def main():
     ndocs = 300 if run.tier == "quick" else 6000
     rng = run.rng
     blocks, docs, nq, n_nonempty, n_err, sizes = [], {}, 0, 0, 0, []
+    n_edited, edits = 0, {}
     distinct = set()
     for k in range(ndocs):
         prof = k % 3
@@ -46,26 +47,50 @@ def main():
             prev = lit
         nq += len(qs); sizes.append(g.n)
         defs = f"Definition d{k} := {L.doc_lit(d)}.\nDefinition q{k} : list (Q * option (list elem)) := [{'; '.join(items)}]."
-        blocks.append((k, defs, [f"cases_isd d{k} q{k}", f"cases_leaves d{k} q{k}", f"cases_ruby_err d{k} q{k}"], [len(qs)] * 3))
+        blocks.append((k, defs, [f"cases_isd d{k} q{k}", f"cases_leaves d{k} q{k}", f"cases_ruby_err d{k} q{k}", f"[doc_wf d{k}]"], [len(qs)] * 3 + [1]))
         docs[k] = (d, qs)
+        # "every document": also a document that has been snapshotted before and was then edited through the model API — the
+        # snapshot of the edited OBJECT must be what M and S say of the document as it is now (on a deep copy)
+        if k % 4 == 3:
+            import c14 as _c14
+            de = copy.deepcopy(d)
+            for t in rng.sample(qs, min(3, len(qs))): isdcore.snapshot(de, t)
+            whats = []
+            for _ in range(rng.randint(1, 2)):
+                try: w = _c14.edit(rng, de, g)
+                except Exception: w = None
+                if w: whats.append(w)
+            if whats:
+                ke = k + 1000000; n_edited += 1
+                qe = docgen.query_times(rng, de, 8)
+                ie = []
+                for t in qe:
+                    lit, obj = isdcore.snapshot(de, t)
+                    ie.append(f"({L.qlit(t)}, {'None' if lit is None else '(Some ' + lit + ')'})")
+                nq += len(qe)
+                blocks.append((ke, f"Definition d{ke} := {L.doc_lit(de)}.\nDefinition q{ke} : list (Q * option (list elem)) := [{'; '.join(ie)}].",
+                               [f"cases_isd d{ke} q{ke}", f"cases_leaves d{ke} q{ke}", f"cases_ruby_err d{ke} q{ke}", f"[doc_wf d{ke}]"], [len(qe)] * 3 + [1]))
+                docs[ke] = (de, qe); edits[ke] = whats
     files = isdcore.write_shards("Cases_C01_", HEADER, blocks)
     bad, broken = isdcore.eval_shards(files)
     C.clean_cases("Cases_C01_")
-    m_bad = bad.get(0, []); s_bad = bad.get(1, []); ruby = set(bad.get(2, []))
-    run.log(f"{ndocs} documents, {nq} snapshots ({n_nonempty} with text, {n_err} raised): model/code mismatches {len(m_bad)}, "
-            f"S failures {len(s_bad)}, Ruby-pattern errors {len(ruby)}, broken case files {len(broken)}")
+    m_bad = bad.get(0, []); s_bad = bad.get(1, []); ruby = set(bad.get(2, [])); not_wf = {c for c, _ in bad.get(3, [])}
+    run.log(f"{ndocs} documents (+{n_edited} edited between snapshots), {nq} snapshots ({n_nonempty} with text, {n_err} raised): model/code mismatches {len(m_bad)}, "
+            f"S failures {len(s_bad)}, Ruby-pattern errors {len(ruby)}, documents outside the hypothesis doc_wf of C01_snapshot {len(not_wf)}, broken case files {len(broken)}")
 
     def replay(case):
         k, i = case; d, qs = docs[k]
         lit, obj = isdcore.snapshot(d, qs[i])
-        return dict(document=L.doc_lit(d), time=str(qs[i]), implementation_snapshot=lit if lit else repr(obj))
+        return dict(document=L.doc_lit(d), time=str(qs[i]), implementation_snapshot=lit if lit else repr(obj),
+                    edits_before_this_snapshot=edits.get(k))
     # snapshots that raise: the recorded Ruby finding covers those where M also reports the push_children failure
     if ruby: run.known("ruby-inactive-annotation", f"{len(ruby)} snapshots, e.g. document {sorted(ruby)[0][0]} at t={docs[sorted(ruby)[0][0]][1][sorted(ruby)[0][1]]}")
     if s_bad:
         run.violation(f"snapshot leaves differ from the TTML2 specification (document {s_bad[0][0]}, time index {s_bad[0][1]})",
                       dict(kind="S-on-code", spec="coq/Spec/IsdSpec.v leaves_spec", first=replay(s_bad[0]), count=len(s_bad)))
-    if (m_bad or broken or not proofs_ok) and not s_bad:
+    if (m_bad or broken or not proofs_ok or not_wf) and not s_bad:
         what = []
+        if not_wf: what.append(f"Spec/DocWf.v doc_wf is false of {len(not_wf)} documents built through the model API (first: document {sorted(not_wf)[0]}): the hypothesis of C01_snapshot is not what the API enforces")
         if not proofs_ok: what.append("theorems of coq/Properties/C01.v no longer check: " + getattr(run, "proof_log", "")[-500:])
         if m_bad: what.append(f"correspondence Model/Isd.v vs ISD.from_model disagrees on {len(m_bad)} snapshots")
         if broken: what.append(f"case files did not evaluate: {broken[0]}")
@@ -75,13 +100,15 @@ def main():
     run.cov.update(evaluations=nq, distinct_nontrivial=len(distinct),
                    rule="random well-formed documents (0-3 timed regions, body/div/div/p/span/br/text and the four ruby patterns, "
                         "region references at any level, display specified/animated/initial, xml:space) x query times = every absolute "
-                        "begin/end computed by the harness from raw offsets, each -/+ 1 ms, midpoints, 0 and last+1 (sampled down). "
+                        "begin/end computed by the harness from raw offsets, each -/+ 1 ms, midpoints, 0 and last+1 (sampled down); every 4th "
+                        "document additionally as a deep copy that was snapshotted, then edited 1-2 times through the model API (timing of any "
+                        "element, children, initial values, text, region) and snapshotted again: judged against M and S of the edited document. "
                         "distinct_nontrivial = snapshots that contain text and differ from the snapshot at the previous query time.",
                    samples=[dict(document=L.doc_lit(docs[0][0])[:1500], times=[str(t) for t in docs[0][1]][:8])],
-                   documents=ndocs, snapshots_with_text=n_nonempty, snapshots_raising=n_err,
+                   documents=ndocs, documents_edited_between_snapshots=n_edited, snapshots_with_text=n_nonempty, snapshots_raising=n_err,
                    elements_per_document=dict(min=min(sizes), max=max(sizes), mean=round(sum(sizes) / len(sizes), 1)),
-                   model_code_mismatches=len(m_bad), s_failures_on_code=len(s_bad))
-    run.assumptions += ["documents are well formed (C15 covers how ill-formed ones arise); region identity is modelled by id",
+                   documents_outside_doc_wf=len(not_wf), model_code_mismatches=len(m_bad), s_failures_on_code=len(s_bad))
+    run.assumptions += ["documents are well formed: Spec/DocWf.v doc_wf, evaluated on every generated document (C15 covers how ill-formed ones arise); region identity is modelled by id",
                         "rational numbers inside style values are compared with relative tolerance 1e-9 (binary floating point in the code)"]
     return run.finish(["harness/isdlit.py (Python objects -> Gallina literals)", "harness/gen_core.py (style tables translator)"])
 
